@@ -310,23 +310,47 @@ def rule_c(ctx, out):
     # (i) price functions of AsmBytecode consult is_push0 first and otherwise delegate to the single tables
     cls = ctx.p.cls("sfs_generator.asm_bytecode.AsmBytecode")
     needed = {"bytes_required": "get_ins_size", "gas_spent": "get_ins_cost", "gas_spent_accesses": "get_ins_cost"}
+    # evaluated abstractly: for every opcode of the vocabulary the item's price is the table's price (and, with the flag on, a zero
+    # push has the table price of PUSH0) — whatever helper methods the class uses to get there
+    from ..core.interp import ModuleInterp
+    from ..specs.evm import STACK_ARITY
+    mi = ModuleInterp(ctx, max_steps=100000)
+    Item = mi.fake_class(cls)
+    tabs = {"get_ins_size": ctx.func("sfs_generator.utils.get_ins_size"), "get_ins_cost": ctx.func("sfs_generator.opcodes.get_ins_cost")}
     for m, table in needed.items():
         fi = cls.methods.get(m)
         if fi is None:
             raise AnalysisError(f"AsmBytecode.{m} not found")
-        first = fi.node.body[0]
-        while isinstance(first, ast.Expr) and isinstance(first.value, ast.Constant):
-            first = fi.node.body[fi.node.body.index(first) + 1]
-        uses_push0 = isinstance(first, ast.If) and bool(calls_in(first.test, "is_push0"))
-        delegates = [c for c in calls_in(fi.node, table)]
-        other_returns = [r for r in own_nodes(fi.node) if isinstance(r, ast.Return) and not calls_in(r, table)
-                         and not (isinstance(getattr(r, "_parent", None), ast.If) and calls_in(r._parent.test, "is_push0"))]
-        if uses_push0 and delegates and not other_returns:
-            out.ok({"method": fi.qual, "first_test": "is_push0(self.disasm, self.value)", "delegates_to": table})
+        bad = None
+        n_ok = 0
+        for flag in (True, False):
+            mi.module_env("global_params.constants")["push0_enabled"] = flag
+            for op in sorted(STACK_ARITY) + ["PUSH"]:
+                for value in (("0", "1", "ff", "1234") if op == "PUSH" else (None,)):
+                    it = Item(disasm=op, value=value, real_value=value, jump_type=None, modifier_depth=None, begin=0, end=0, source=0)
+                    try:
+                        got = it.gas_spent_accesses(False, False) if m == "gas_spent_accesses" else getattr(it, m)
+                        if flag and op == "PUSH" and value == "0":
+                            want = mi.call(tabs[table], "PUSH0") if table == "get_ins_cost" else mi.call(tabs[table], "PUSH0", None)
+                        elif table == "get_ins_cost":
+                            want = mi.call(tabs[table], op, value, already=False) if m == "gas_spent_accesses" else mi.call(tabs[table], op, value)
+                        else:
+                            want = mi.call(tabs[table], op, int(value, 16) if op == "PUSH" else None)
+                    except Raised:
+                        continue
+                    except Unsupported as e:
+                        raise AnalysisError(f"AsmBytecode.{m}: cannot evaluate abstractly on {op} {value}: {e}")
+                    if got == want:
+                        n_ok += 1
+                    elif bad is None:
+                        bad = (op, value, flag, got, want)
+        if bad is None and n_ok >= 100:
+            out.ok({"method": fi.qual, "agrees_with": table, "items_evaluated": n_ok})
+        elif bad is None:
+            raise AnalysisError(f"AsmBytecode.{m}: only {n_ok} items could be evaluated")
         else:
-            why = "does not test is_push0 first" if not uses_push0 else f"does not delegate to {table}" if not delegates else \
-                "returns a cost from somewhere else than the cost table"
-            out.bad(f"AsmBytecode.{m}:cost-source", f"AsmBytecode.{m} {why}", where(fi))
+            op, value, flag, got, want = bad
+            out.bad(f"AsmBytecode.{m}:cost-source", f"AsmBytecode.{m} of `{op} {value}` (PUSH0 {'on' if flag else 'off'}) is {got!r}; {table} says {want!r}", where(fi))
     # (ii) AsmBlock totals are sums of the per-instruction prices
     blk = ctx.p.cls("sfs_generator.asm_block.AsmBlock")
     for m, attr in (("bytes_required", "bytes_required"), ("gas_spent", "gas_spent")):
